@@ -809,7 +809,7 @@ def r11(ctx, R):
                 if not upd or not ef:
                     R.note(c, w, 'not decided: Newton update or eval_f not recognised')
                     continue
-                uname = upd[0]
+                uname = 'u' if 'u' in upd else upd[0]
                 fac = sp.Symbol(fn.args.args[2].arg)
                 efn = ef[1]
                 parts = _rhs_parts(efn)
